@@ -86,4 +86,36 @@ theorem solveRaise_spec (E : Env ω ρ ξ α) (c : Callback ω) (pr : ω → ω)
     simp [Drv.timerStart]; omega
   · rw [bc, bw]; simp only [Drv.timerStart]
 
+/-! ### an `insert` that raises -/
+
+theorem solveInsertRaise_spec (E : Env ω ρ ξ α) (cb : Option (Callback ω)) (d : Drv ω ρ L)
+    (hwf : TimerWF d.timer d.clock) (hm : 0 < d.maxiter.toNat)
+    (hclean : tripsB E d.nanstop (E.step d.world) = false) :
+    (solveInsertRaise E cb d).2 = none ∧
+      (solveInsertRaise E cb d).1.world = E.step d.world ∧
+      (solveInsertRaise E cb d).1.itnum = d.itnum ∧
+      (solveInsertRaise E cb d).1.rows = d.rows ++
+        [⟨d.itnum, d.timer.elapsedDefault true d.clock + E.stepTicks d.world, E.fields (E.step d.world)⟩] ∧
+      (solveInsertRaise E cb d).1.cblog = d.cblog ∧
+      (solveInsertRaise E cb d).1.clock = d.clock + E.stepTicks d.world ∧
+      RunningAt (d.timer.start .none d.clock) (solveInsertRaise E cb d).1.timer (solveInsertRaise E cb d).1.clock
+        (d.timer.elapsedDefault true d.clock + E.stepTicks d.world) := by
+  have hrun := running_after_start d.timer d.clock hwf
+  have hadv := hrun.advance (d.clock + E.stepTicks d.world) (by omega)
+  have hread := hrun.read (d.clock + E.stepTicks d.world) (by omega)
+  have hne : ¬ d.timerStart.maxiter.toNat = 0 := by
+    show ¬ d.maxiter.toNat = 0; omega
+  have hnot : (d.nanstop && !workingVarsFinite E.fin (E.vars (E.step d.world))) = false := by
+    unfold tripsB at hclean; exact hclean
+  unfold solveInsertRaise
+  have hne' : ¬ d.maxiter.toNat = 0 := by omega
+  simp only [bodyInsertRaise, Drv.timerStart, hne', hnot, if_false, Bool.false_eq_true]
+  have he : (d.timer.start Arg.none d.clock).elapsedDefault true (d.clock + E.stepTicks d.world) =
+      d.timer.elapsedDefault true d.clock + E.stepTicks d.world := by
+    rw [hread]; omega
+  refine ⟨trivial, trivial, trivial, ?_, trivial, trivial, ?_⟩
+  · simp only [statsInsert, he]
+  · convert hadv using 1
+    omega
+
 end Scico.Driver
